@@ -247,6 +247,18 @@ pub fn profile(name: &str, rng: &mut SmallRng) -> GenParams {
         "quiet" => {
             p.quiet_pct = 55;
             p.ops.push(("get", 10));
+            p.oversize_pct = 8;
+            p.item_limit = *[128u32, 256].choose(rng).unwrap();
+        }
+        "quietpair" => {
+            // programs that are run twice, the second time with every quiet bit flipped: no symbolic CAS
+            // arguments (a quiet success reveals no token), bodies around the item limit
+            p.quiet_pct = 50;
+            p.cas_pct = 0;
+            p.oversize_pct = 12;
+            p.item_limit = *[128u32, 256].choose(rng).unwrap();
+            p.nkeys = rng.gen_range(2..=3);
+            p.len = rng.gen_range(25..=60);
         }
         "evict_tight" => {
             p.policy = "random".into();
@@ -266,6 +278,19 @@ pub fn profile(name: &str, rng: &mut SmallRng) -> GenParams {
             p.len = rng.gen_range(150..=400);
             p.item_limit = 128;
             p.oversize_pct = 1;
+        }
+        "huge" => {
+            // the default 1 MiB item limit with values around the 16-bit boundaries of the length fields
+            p.item_limit = 1 << 20;
+            p.max_val = 70000;
+            p.nkeys = 2;
+            p.len = rng.gen_range(5..=9);
+            p.oversize_pct = 0;
+            p.numeric_pct = 0;
+            p.tick_pct = 0;
+            p.cas_pct = 10;
+            p.get_all_pct = 60;
+            p.ops = vec![("get", 30), ("set", 35), ("add", 5), ("replace", 8), ("append", 10), ("prepend", 6), ("delete", 3)];
         }
         "big" => {
             p.item_limit = *[1024u32, 4096].choose(rng).unwrap();
@@ -331,6 +356,12 @@ fn gen_numeric(rng: &mut SmallRng) -> Vec<u8> {
 fn gen_val(rng: &mut SmallRng, p: &GenParams) -> Vec<u8> {
     if rng.gen_range(0..100) < p.numeric_pct {
         return gen_numeric(rng);
+    }
+    if p.max_val >= 65536 {
+        // lengths around 2^16 (minus the 4 extras bytes and short keys of a hit) and 2^17
+        let n = *[65526usize, 65529, 65530, 65531, 65532, 65533, 65535, 65536, 65537, 70000, 131066, 131072, 100, 0].choose(rng).unwrap();
+        let b: u8 = rng.gen();
+        return (0..n).map(|i| b.wrapping_add((i % 251) as u8)).collect();
     }
     let n = match rng.gen_range(0..10) {
         0 => 0,
@@ -431,9 +462,13 @@ pub fn generate(name: &str, profile_name: &str, rng: &mut SmallRng) -> History {
             _ => Vec::new(),
         };
         if matches!(op, "set" | "add" | "replace" | "append" | "prepend") && rng.gen_range(0..100) < p.oversize_pct {
-            // body = extras + key + value just above / far above the limit
-            let over = *[1usize, 2, 100].choose(rng).unwrap();
-            val = vec![b'x'; p.item_limit as usize + over];
+            // body = extras + key + value around the limit: one below, exactly, just above, far above
+            let extras = if matches!(op, "append" | "prepend") { 0 } else { 8 };
+            let delta = *[-1i64, 0, 1, 2, 9, 100].choose(rng).unwrap();
+            let vlen = p.item_limit as i64 - extras - key.len() as i64 + delta;
+            if vlen >= 0 {
+                val = vec![b'x'; vlen as usize];
+            }
         }
         let ttl = match op {
             "flush" => *[0u32, 0, 1, 2, 3, 5].choose(rng).unwrap(),
